@@ -1,73 +1,139 @@
 (* C04 - Matryer-style mocks forward calls and record them faithfully.
    Only statements; proofs are in Mock/Matryer_proofs.v.  Model: Mock/Matryer.v
-   (state = per method (user function option, list of records); [step d st op] gives the new
-   state, the observable outcome and the list of user-function invocations; [trace]/[final]
-   run whole histories).  The specification side is "a list of argument tuples per method":
-   [tuples d m tr] = the packed argument tuples of the calls of m in the trace tr that got
-   past the nil check, in call order; [last_func] = the function most recently stored in
-   <M>Func; [resets d m o] = o is a reset method that exists (with-resets) and covers m. *)
+   (state = per method (user function option, list of records); [step fuel d st op] gives the new
+   state, the observable outcome and the list of events: record appends, clears, user-function
+   invocations and outcomes of nested operations; [trace]/[final] run whole histories).
+   User functions are SCRIPTS: while running they may read <M>Calls(), call methods of the
+   mock (the one being served included) and call the reset methods, and go on depending on the
+   outcomes.  A mock that keeps lock<M> while <M>Func runs cannot behave like this model: the
+   nested operation never returns (observable `deadlock` of the driver).
+   The specification side is "a list of argument tuples per method": [tuples m evs] = the argument
+   tuples of the ERecord events of m; [eff d m] = what one event does to m's records;
+   [last_func] = the function most recently stored in <M>Func.
+   Fuel: [callf] is total by explicit fuel; a nested call made with no fuel left gives OOutOfFuel,
+   which propagates to the top (Go would overflow the stack on unbounded recursion); the statements
+   below are for arbitrary fuel [S f] and [C04_forward_once_no_nested_call] shows that functions
+   which do not call into the mock never run out of fuel. *)
 From Mk Require Import Lib.Bytes Mock.Matryer Mock.Matryer_proofs.
 
-(* After ANY history [pre] from ANY state: if the function last stored in <M>Func is g, a call
-   of M invokes g exactly once ([EInvoke m vals] is the whole event list of the step), with exactly
-   the call's arguments (vals = the packed call-site arguments), returns exactly g's results
-   (or propagates its panic), and the record was appended before forwarding. *)
-Theorem C04_forward_once : forall d st0 pre m a s vals g,
+(* After ANY history [pre] from ANY state: if the function last stored in <M>Func is g, a call of M
+   appends the record, THEN invokes g - once: the activation's events start with exactly
+   [ERecord m vals; EInvoke m vals] and everything after that is what g's own script does -
+   with exactly the call's arguments, and the call's outcome is the outcome of g's script. *)
+Theorem C04_forward_once : forall fuel f d st0 pre m a s vals g,
   find_method (methods d) m = Some s -> pack s a = Some vals ->
   last_func d m (func_of st0 m) pre = Some g ->
-  let st := final d st0 pre in
-  step d st (Call m a) = (upd st m (Some g, log_of st m ++ [mkrec s vals]), of_ures (g vals), [EInvoke m vals]).
+  let st := final fuel d st0 pre in
+  step (S f) d st (Call m a) =
+  run_script (nstep (callf f d) d) (g vals) (upd st m (Some g, log_of st m ++ [mkrec s vals])) [ERecord m vals; EInvoke m vals].
 Proof. exact forward_once. Qed.
 Print Assumptions C04_forward_once.
 
-(* No other operation invokes any user function; a call invokes at most the one of its own method. *)
-Theorem C04_no_other_invocation : forall d st o,
-  let '(_, x, ev) := step d st o in
+(* ... in particular, for a function that just returns (or panics): exactly its results, exactly one invocation. *)
+Theorem C04_forward_once_plain : forall fuel f d st0 pre m a s vals g r,
+  find_method (methods d) m = Some s -> pack s a = Some vals ->
+  last_func d m (func_of st0 m) pre = Some g -> g vals = SRet r ->
+  let st := final fuel d st0 pre in
+  step (S f) d st (Call m a) = (upd st m (Some g, log_of st m ++ [mkrec s vals]), of_ures r, [ERecord m vals; EInvoke m vals]).
+Proof. exact forward_once_plain. Qed.
+Print Assumptions C04_forward_once_plain.
+
+(* The outcome of a call that reached its function is the function's own return value or panic
+   (whatever it did to the mock meanwhile) ... *)
+Theorem C04_returns_funcs_results : forall ns sc st evs,
+  let x := snd (fst (run_script ns sc st evs)) in (exists rs, x = ORet rs) \/ x = OPanicUser \/ x = OOutOfFuel.
+Proof. exact run_script_out. Qed.
+Print Assumptions C04_returns_funcs_results.
+
+(* ... and a function that reads Calls() / resets but never calls a method always returns, with
+   exactly one user-function invocation in the whole step (any fuel >= 1). *)
+Theorem C04_forward_once_no_nested_call : forall f d st m a s vals g,
+  find_method (methods d) m = Some s -> pack s a = Some vals -> func_of st m = Some g ->
+  no_ncall (g vals) ->
+  let r := step (S f) d st (Call m a) in
+  ((exists rs, snd (fst r) = ORet rs) \/ snd (fst r) = OPanicUser) /\ count_invokes (snd r) = 1.
+Proof. exact call_no_ncall. Qed.
+Print Assumptions C04_forward_once_no_nested_call.
+
+(* No other operation runs user code; a call whose <M>Func is nil runs none either. *)
+Theorem C04_no_other_invocation : forall fuel d st o,
+  let evs := snd (step fuel d st o) in
   match o with
-  | Call m a =>
-    match func_of st m, find_method (methods d) m with
-    | Some g, Some s => match pack s a with
-                        | Some vals => ev = [EInvoke m vals] /\ x = of_ures (g vals)
-                        | None => ev = [] /\ x = OIllTyped
-                        end
-    | _, _ => ev = []
-    end
-  | _ => ev = []
+  | Call m a => func_of st m = None -> count_invokes evs = 0
+  | _ => count_invokes evs = 0
   end.
-Proof. exact events_shape. Qed.
+Proof. exact no_other_invocation. Qed.
 Print Assumptions C04_no_other_invocation.
 
-(* <M>Calls() = one record per call of M since the last reset covering M, in call order
-   (refinement to the tuple list), for all histories around the reset ... *)
-Theorem C04_log_order : forall d st pre r post m s,
-  find_method (methods d) m = Some s -> resets d m r = true ->
-  forallb (fun o => negb (resets d m o)) post = true ->
-  snd (fst (step d (final d st (pre ++ r :: post)) (Calls m)))
-  = ORecords (map (mkrec s) (tuples d m (trace d (final d st (pre ++ [r])) post))).
-Proof. exact calls_after_reset. Qed.
+(* Re-entrancy: a user function that reads <M>Calls() of the method it is serving gets the records
+   so far WITH the record of the running call as last element, and the call goes on with the
+   rest of the function. *)
+Theorem C04_nested_calls_sees_running_call : forall f d st m a s vals g k,
+  find_method (methods d) m = Some s -> pack s a = Some vals -> func_of st m = Some g ->
+  g vals = SDo (NCalls m) k ->
+  let st' := upd st m (Some g, log_of st m ++ [mkrec s vals]) in
+  let seen := ORecords (log_of st m ++ [mkrec s vals]) in
+  step (S f) d st (Call m a) =
+  run_script (nstep (callf f d) d) (k seen) st' [ERecord m vals; EInvoke m vals; ENested (NCalls m) seen].
+Proof. exact nested_calls_sees_running. Qed.
+Print Assumptions C04_nested_calls_sees_running_call.
+
+(* Nested reads and resets are the same operations as the top-level ones (so every theorem about
+   them applies inside a running function), and every operation - nested calls of any depth
+   included - moves the logs exactly as its events say and never touches a function. *)
+Theorem C04_nested_ops_same : forall call fuel d st,
+  (forall m, nstep call d st (NResetM m) = step fuel d st (ResetM m)) /\
+  nstep call d st NResetAll = step fuel d st ResetAll /\
+  (forall m, nstep call d st (NCalls m) = step fuel d st (Calls m)).
+Proof. exact nested_reset_same. Qed.
+Print Assumptions C04_nested_ops_same.
+
+Theorem C04_events_sound : forall fuel d st m a m0,
+  let r := callf fuel d st m a in
+  log_of (fst (fst r)) m0 = fold_left (eff d m0) (snd r) (log_of st m0) /\ func_of (fst (fst r)) m0 = func_of st m0.
+Proof. intros fuel d st m a m0. apply callf_sound. Qed.
+Print Assumptions C04_events_sound.
+
+(* <M>Calls() = one record per recorded call of M (top-level or nested), in call order, since the
+   last clear of M's log (refinement to the tuple list; induction over the history) ... *)
+Theorem C04_log_order : forall fuel d st ops m s e1 e2,
+  find_method (methods d) m = Some s ->
+  all_events (trace fuel d st ops) = e1 ++ EClear m :: e2 ->
+  forallb (fun e => negb (clears m e)) e2 = true ->
+  snd (fst (step fuel d (final fuel d st ops) (Calls m))) = ORecords (map (mkrec s) (tuples m e2)).
+Proof. exact calls_after_clear. Qed.
 Print Assumptions C04_log_order.
 
-(* ... and from a fresh mock for all histories without a reset covering M. *)
-Theorem C04_log_order_fresh : forall d ops m s,
+(* ... and from a fresh mock for all histories in which M's log is never cleared. *)
+Theorem C04_log_order_fresh : forall fuel d ops m s,
   find_method (methods d) m = Some s ->
-  forallb (fun o => negb (resets d m o)) ops = true ->
-  snd (fst (step d (final d init ops) (Calls m))) = ORecords (map (mkrec s) (tuples d m (trace d init ops)))
-  /\ length (log_of (final d init ops) m) = length (tuples d m (trace d init ops)).
-Proof. intros d ops m s Hm Hp. split; [now apply calls_no_reset | now apply (record_count d ops m s)]. Qed.
+  forallb (fun e => negb (clears m e)) (all_events (trace fuel d init ops)) = true ->
+  snd (fst (step fuel d (final fuel d init ops) (Calls m))) = ORecords (map (mkrec s) (tuples m (all_events (trace fuel d init ops)))) /\
+  length (log_of (final fuel d init ops) m) = length (tuples m (all_events (trace fuel d init ops))).
+Proof. exact calls_no_clear. Qed.
 Print Assumptions C04_log_order_fresh.
 
-(* Which calls are "recorded": all but those that panicked on the nil check. *)
-Theorem C04_recorded_iff : forall d st m a s vals,
+(* The general form: after any history the records of every method are the fold of the events. *)
+Theorem C04_log_refines_events : forall fuel d st ops m0,
+  log_of (final fuel d st ops) m0 = fold_left (eff d m0) (all_events (trace fuel d st ops)) (log_of st m0).
+Proof. exact final_log. Qed.
+Print Assumptions C04_log_refines_events.
+
+(* Which calls are recorded: all but those that panicked on the nil check; the record event is the
+   first event of the call. *)
+Theorem C04_recorded_iff : forall f d st m a s vals,
   find_method (methods d) m = Some s -> pack s a = Some vals ->
-  let '(st', x, ev) := step d st (Call m a) in
-  recorded d m (Call m a, x, ev) =
-  match func_of st m, stub_impl (mopts d) with None, false => None | _, _ => Some vals end.
+  let evs := snd (step (S f) d st (Call m a)) in
+  match func_of st m, stub_impl (mopts d) with
+  | None, false => evs = []
+  | _, _ => exists rest, evs = ERecord m vals :: rest
+  end.
 Proof. exact recorded_iff. Qed.
 Print Assumptions C04_recorded_iff.
 
 (* Reading the calls changes nothing. *)
-Theorem C04_calls_pure : forall d st m s,
-  find_method (methods d) m = Some s -> step d st (Calls m) = (st, ORecords (log_of st m), []).
+Theorem C04_calls_pure : forall fuel d st m s,
+  find_method (methods d) m = Some s -> step fuel d st (Calls m) = (st, ORecords (log_of st m), []).
 Proof. exact calls_pure. Qed.
 Print Assumptions C04_calls_pure.
 
@@ -89,83 +155,84 @@ Print Assumptions C04_variadic_field.
 
 (* <M>Func nil (after any history) and stub-impl off: the call panics with the message naming
    <M>Func; nothing is recorded, nothing is invoked, nothing changes. *)
-Theorem C04_nil_panics_names_func : forall d st0 pre m a s vals,
+Theorem C04_nil_panics_names_func : forall fuel f d st0 pre m a s vals,
   find_method (methods d) m = Some s -> pack s a = Some vals ->
   last_func d m (func_of st0 m) pre = None -> stub_impl (mopts d) = false ->
-  let st := final d st0 pre in
-  step d st (Call m a) = (st, OPanicNil (nil_msg d m), []) /\
+  let st := final fuel d st0 pre in
+  step (S f) d st (Call m a) = (st, OPanicNil (nil_msg d m), []) /\
   exists pre' post', nil_msg d m = pre' ++ (m ++ B "Func") ++ post' /\
                      pre' = struct_name d ++ B "." /\
                      post' = B ": method is nil but " ++ iface_name d ++ B "." ++ m ++ B " was just called".
 Proof.
-  intros d st0 pre m a s vals Hm Hp Hl Hs st. split.
-  - now apply (nil_panics_history d st0 pre m a s vals).
+  intros fuel f d st0 pre m a s vals Hm Hp Hl Hs st. split.
+  - now apply (nil_panics_history fuel f d st0 pre m a s vals).
   - apply nil_msg_names_func.
 Qed.
 Print Assumptions C04_nil_panics_names_func.
 
 (* stub-impl on: the call is still recorded, zero values are returned, nothing is invoked. *)
-Theorem C04_stub_records_and_zero : forall d st0 pre m a s vals,
+Theorem C04_stub_records_and_zero : forall fuel f d st0 pre m a s vals,
   find_method (methods d) m = Some s -> pack s a = Some vals ->
   last_func d m (func_of st0 m) pre = None -> stub_impl (mopts d) = true ->
-  let st := final d st0 pre in
-  step d st (Call m a) = (upd st m (None, log_of st m ++ [mkrec s vals]), ORet (repeat vzero (mnres s)), []).
+  let st := final fuel d st0 pre in
+  step (S f) d st (Call m a) = (upd st m (None, log_of st m ++ [mkrec s vals]), ORet (repeat vzero (mnres s)), [ERecord m vals]).
 Proof. exact stub_history. Qed.
 Print Assumptions C04_stub_records_and_zero.
 
 (* Reset<M>Calls empties exactly M's records; ResetCalls empties the records of all methods;
    neither touches any function nor any other method's records; without with-resets the
    methods do not exist. *)
-Theorem C04_reset_isolated : forall d st,
+Theorem C04_reset_isolated : forall fuel d st,
   with_resets (mopts d) = true ->
   (forall m s, find_method (methods d) m = Some s ->
-     let '(st', x, ev) := step d st (ResetM m) in
-     x = OUnit /\ ev = [] /\ log_of st' m = [] /\
+     let '(st', x, ev) := step fuel d st (ResetM m) in
+     x = OUnit /\ ev = [EClear m] /\ log_of st' m = [] /\
      (forall m', func_of st' m' = func_of st m') /\
      (forall m', m' <> m -> log_of st' m' = log_of st m')) /\
-  (let '(st', x, ev) := step d st ResetAll in
-     x = OUnit /\ ev = [] /\
+  (let '(st', x, ev) := step fuel d st ResetAll in
+     x = OUnit /\ ev = map (fun sg => EClear (mname sg)) (methods d) /\
      (forall m, In m (map mname (methods d)) -> log_of st' m = []) /\
      (forall m, func_of st' m = func_of st m) /\
      (forall m, ~ In m (map mname (methods d)) -> log_of st' m = log_of st m)).
 Proof.
-  intros d st Hw. split.
-  - intros m s Hm. now apply (reset_one_isolated d st m s).
+  intros fuel d st Hw. split.
+  - intros m s Hm. now apply (reset_one_isolated fuel d st m s).
   - now apply reset_all_isolated.
 Qed.
 Print Assumptions C04_reset_isolated.
 
-Theorem C04_no_resets_without_option : forall d st o,
+Theorem C04_no_resets_without_option : forall fuel d st o,
   with_resets (mopts d) = false -> (o = ResetAll \/ exists m, o = ResetM m) ->
-  step d st o = (st, ONoMethod, []).
+  step fuel d st o = (st, ONoMethod, []).
 Proof. exact no_resets_without_option. Qed.
 Print Assumptions C04_no_resets_without_option.
 
 (* Rejected operations (unknown method, ill-typed call, nil panic) leave the whole mock unchanged. *)
-Theorem C04_rejected_no_change : forall d st o,
-  let '(st', x, _) := step d st o in
+Theorem C04_rejected_no_change : forall fuel d st o,
+  let '(st', x, _) := step fuel d st o in
   (x = ONoMethod \/ x = OIllTyped \/ (exists msg, x = OPanicNil msg)) -> st' = st.
 Proof. exact rejected_no_change. Qed.
 Print Assumptions C04_rejected_no_change.
 
-(* Non-vacuity: a two-method mock; B(s, n, xs...) recorded twice around a nil-func panic of A and a reset of A. *)
+(* Non-vacuity: Do(id, s, xs...) served by a function that reads DoCalls() while running (sees its
+   own record), calls A (nil function: panic, recovered by the function) and resets A. *)
 Example C04_example :
   let d := {| struct_name := B "MoqI"; iface_name := B "I";
               methods := [ {| mname := B "A"; mparams := []; mvariadic := false; mnres := 0 |};
                            {| mname := B "Do"; mparams := [B "id"; B "s"; B "xs"]; mvariadic := true; mnres := 2 |} ];
               mopts := {| skip_ensure := false; stub_impl := false; with_resets := true |} |} in
-  let f : ufunc := fun _ => URet [VTok 7; VTok 0] in
-  map (fun e => snd (fst e))
-    (trace d init [ SetFunc (B "Do") (Some f);
-                    Call (B "Do") {| fixed := [VTok 1; VTok 2]; var := Elems [] |};
-                    Call (B "A") {| fixed := []; var := NoVar |};
-                    Call (B "Do") {| fixed := [VTok 3; VTok 4]; var := Elems [5; 6] |};
-                    ResetM (B "A");
-                    Calls (B "Do"); ResetAll; Calls (B "Do") ])
-  = [ OUnit; ORet [VTok 7; VTok 0];
-      OPanicNil (B "MoqI.AFunc: method is nil but I.A was just called");
-      ORet [VTok 7; VTok 0]; OUnit;
-      ORecords [ [(B "ID", VTok 1); (B "S", VTok 2); (B "Xs", VNilSlice)];
-                 [(B "ID", VTok 3); (B "S", VTok 4); (B "Xs", VSlice [5; 6])] ];
-      OUnit; ORecords [] ].
+  let f : ufunc := fun _ => SDo (NCalls (B "Do")) (fun _ => SDo (NCall (B "A") {| fixed := []; var := NoVar |})
+                            (fun _ => SDo (NResetM (B "A")) (fun _ => SRet (URet [VTok 7; VTok 0])))) in
+  map (fun e => (snd (fst e), filter (fun x => match x with ENested _ _ => true | _ => false end) (snd e)))
+    (trace 3 d init [ SetFunc (B "Do") (Some f);
+                      Call (B "Do") {| fixed := [VTok 1; VTok 2]; var := Elems [] |};
+                      Call (B "Do") {| fixed := [VTok 3; VTok 4]; var := Elems [5; 6] |};
+                      Calls (B "Do"); ResetAll; Calls (B "Do") ])
+  = let r1 := [(B "ID", VTok 1); (B "S", VTok 2); (B "Xs", VNilSlice)] in
+    let r2 := [(B "ID", VTok 3); (B "S", VTok 4); (B "Xs", VSlice [5; 6])] in
+    let npanic := ENested (NCall (B "A") {| fixed := []; var := NoVar |}) (OPanicNil (B "MoqI.AFunc: method is nil but I.A was just called")) in
+    [ (OUnit, []);
+      (ORet [VTok 7; VTok 0], [ENested (NCalls (B "Do")) (ORecords [r1]); npanic; ENested (NResetM (B "A")) OUnit]);
+      (ORet [VTok 7; VTok 0], [ENested (NCalls (B "Do")) (ORecords [r1; r2]); npanic; ENested (NResetM (B "A")) OUnit]);
+      (ORecords [r1; r2], []); (OUnit, []); (ORecords [], []) ].
 Proof. vm_compute. reflexivity. Qed.
